@@ -81,11 +81,11 @@ def run(tier, seed):
     _, S, MM, D = _hm()
     st = Suite("C09.observers", "metamorphic pairs on the implementation: same seed/target/tuning with perturbed global numpy RNG state and unrelated library "
                "activity, distribution and mass-matrix objects already used by other samplers, swapped back end, diagnostic mode, progress bar, visual samplers (animated or not), fast/slow/non-monotone clocks; prefix pairs; "
-               "byte-identical arrays required; non-trivial = pair whose base run has >= 1 accept and >= 1 reject")
+               "seeds incl. 0, 1 and 2^32-1; byte-identical arrays required; non-trivial = pair whose base run has >= 1 accept and >= 1 reject")
     with scratch() as tmp:
         for ci in range(24 if thorough else 7):
             cfg = {"sampler": rnd.choice(["RWMH", "HMC"]), "target": rnd.choice(["normaldiag", "himmelblau", "laplace"]),
-                   "boxed": rnd.random() < 0.3, "seed": rnd.randrange(1 << 30), "stepsize": rnd.choice([0.1, 0.5, 1.5]),
+                   "boxed": rnd.random() < 0.3, "seed": ([0, 0, 1][ci] if ci < 3 else rnd.choice([rnd.randrange(1 << 30), rnd.randrange(1 << 30), 0, 2**32 - 1])), "stepsize": rnd.choice([0.1, 0.5, 1.5]),
                    "autotuning": rnd.random() < 0.4, "mass": rnd.choice(["unit", "diag", "full"]), "integrator": rnd.choice(["lf", "3s", "4s"]),
                    "n": rnd.choice([1, 3]), "randomize": rnd.random() < 0.5, "P": rnd.choice([6, 12, 20]), "t": rnd.choice([1, 2])}
             cfg["d"] = 2 if cfg["target"] == "himmelblau" else rnd.choice([2, 3])
